@@ -43,6 +43,9 @@ def gen_case(r, front, framing, uniq, data_only=False, max_per_read=3, allow_for
         # configuration through the process-wide Defaults (keywords left out) / blocks built from one caller-side list
         flags['via_defaults'] = True
         layout['via_defaults'] = True
+    elif r.random() < 0.15:
+        flags['defaults_opposite'] = True
+        layout['defaults_opposite'] = True
     if r.random() < 0.15:
         layout['share_init_lists'] = True
     n = nreq or r.choice([1, 3, 8, 16])
@@ -68,6 +71,13 @@ def gen_case(r, front, framing, uniq, data_only=False, max_per_read=3, allow_for
         reads.append(frames[i:i + kk])
         i += kk
     return {'front': front, 'framing': framing, 'layout': layout, 'flags': flags, 'reads': reads}
+
+
+def add_failing(r, case, k):
+    """one hosted unit's datastore raises on every access (class chosen from SM.FAIL_CLASSES)"""
+    hosted = sorted(int(u) for u in case['layout']['units'])
+    case['failing'] = [r.choice(hosted), SM.FAIL_CLASSES[k % len(SM.FAIL_CLASSES)]]
+    return case
 
 
 def add_delivery(r, case):
@@ -100,8 +110,12 @@ def build_reads(case):
             if f is None:
                 f = ADU.build(case['framing'], unit, S.encode(m), tid=tid)
             fr[2] = m2
+            if case.get('pid') and case['framing'] == 'tcp':
+                f = f[:2] + bytes([case['pid'] >> 8, case['pid'] & 0xFF]) + f[4:]       # MBAP protocol identifier chosen by the client
             chunk += f
         out.append(chunk)
+    for idx, hx in sorted(case.get('inserts', []), reverse=True):
+        out.insert(idx, bytes.fromhex(hx))          # raw bytes put between two reads (C17: fragments the framer rejects)
     return out
 
 
@@ -176,6 +190,9 @@ def execute(case):
     repo.reset_globals()
     ctx, model, blocks = SM.build(case['layout'])
     reads = build_reads(case)
+    if case.get('failing'):
+        fu, exc_name = case['failing']
+        model.failing = {int(fu)}
     new_units = {}
     if case.get('reconfig'):
         # run-time reconfiguration of the server context between two reads (context[uid] = ..., del context[uid])
@@ -189,6 +206,8 @@ def execute(case):
             fed.append(chunk)
     else:
         fed = reads
+    if case.get('failing'):
+        SM.make_failing(blocks[int(case['failing'][0])], case['failing'][1])
     res = FE.feed(case['front'], case['framing'], ctx, fed, **dict(case['flags'], **case.get('delivery', {})))
     for k, (idx, op, uid, lay) in enumerate(case.get('reconfig', [])):
         if k not in new_units:            # the front-end stopped reading before the event: apply it anyway (keeps model and store comparable)
